@@ -524,3 +524,31 @@ def rule_rec_guard(prog: Program, report: Report) -> None:
                 report.violate("RL-rec", fn, c, f"unguarded recursive call `{text}`", f"`{fn.qual}` walks a graph that can contain cycles (repetitions create back edges) and recurses here without testing that the target was already visited: a cycle through this edge recurses until RecursionError", what="recursive graph walks test a visited set before recursing")
     report.count("RL-rec recursive calls in graph-walking closures", n)
     report.expect_at_least("RL-rec", "recursive calls", n, 5)
+
+
+# ----------------------------------------------------------------------- RT4
+RT4_EXEMPT = {
+    ("prosemirror/model/diff.py::find_diff_start", "inner"): "a reported inner position is >= 1: the recursive scan starts at pos + 1 (enforced by a Val entry of the gate table)",
+    ("prosemirror/transform/map.py::Mapping.__init__", "from_"): "`from_ or 0`: 0 and None both mean 0",
+}
+
+
+def rule_rt4(prog: Program, report: Report) -> None:
+    """A value of static type `int | None` (a position, index or depth that may
+    be absent) is not tested by truthiness: 0 is a legitimate position and would
+    be taken for 'absent'."""
+    report.rules.append("RT4")
+    tm = prog.types
+    n = 0
+    for fn in prog.all_funcs():
+        for a, site in truth_tests(fn.node):
+            names = set(tm.instance_names(fn.module, a))
+            if names != {"builtins.int", "None"}:
+                continue
+            n += 1
+            key = (fn.key, src(a))
+            if key in RT4_EXEMPT:
+                report.ob("RT4", fn.key, f"`{src(a)}` (int | None) tested by truthiness: audited - {RT4_EXEMPT[key]}")
+                continue
+            report.violate("RT4", fn, a, f"`{src(a)[:50]}` of type int | None tested by truthiness", f"`{src(a)[:50]}` may be the integer 0 (position 0, index 0, depth 0), which the test treats like None (absent / deleted); compare with None instead", what="Optional[int] values are compared with None")
+    report.count("RT4 truthiness tests of Optional[int] values", n)
